@@ -52,7 +52,8 @@ def _one_program(args):
     g = progs.ProgGen(rng, surjective_only=surjective_only, max_rules=max_rules, enums=(idx % 2 == 1), control=(idx % 2 == 1))
     prog = None
     for _ in range(20):
-        prog = g.gen()
+        # every fifth program has relations with 5-9 columns (high-arity index and iteration code)
+        prog = progs.wide_program(rng) if (idx % 5 == 4 and not surjective_only) else g.gen()
         if prog is not None:
             break
     if prog is None:
